@@ -15,6 +15,7 @@ import (
 	"sync"
 	"sync/atomic"
 	"syscall"
+	"time"
 
 	"github.com/biogo/biogo/morass"
 
@@ -372,10 +373,26 @@ type c11FailWriter struct {
 	f      *os.File
 	n      *int64
 	failAt int64
+	// gate, if not nil, holds the failing write back until it is closed (and a moment longer), for at most 300 ms;
+	// fired becomes 1 when the write failed, 2 when it did so after the gate had been opened
+	gate  chan struct{}
+	fired *int32
 }
 
 func (w c11FailWriter) Write(p []byte) (int, error) {
 	if atomic.AddInt64(w.n, 1) == w.failAt {
+		late := int32(1)
+		if w.gate != nil {
+			select {
+			case <-w.gate:
+				time.Sleep(2 * time.Millisecond)
+				late = 2
+			case <-time.After(300 * time.Millisecond):
+			}
+		}
+		if w.fired != nil {
+			atomic.StoreInt32(w.fired, late)
+		}
 		return 0, errors.New("harness: injected write failure")
 	}
 	return w.f.Write(p)
